@@ -9,6 +9,7 @@
                             3 PKCS#1 public, 4 SEC1 EC private, 5 PKCS#1 private, 6 DSA private;
                             for 1..6: asn1.Unmarshal into the repository's struct (schema matcher), then l_desc
      route_der              parseDERData (trial order);  asn1_file / b64_file / route_pem: the three parsers
+     pem_blocks_of          the loop of PEMFile over encoding/pem.Decode (Model/Pem.v)
      inspect_file           file.Inspect over the regenerated format table
      der_of_kind k d        d is exactly one DER value of bytes; kinds 1..6: accepted by kind k's struct, and
                             (k=3) it has exactly two elements, (k=6) its q does not fit a Go int;
@@ -20,8 +21,9 @@
                             than u/U come seven hex digits (necessary condition read off uuid.Parse)
      cert_oracle_ok L k d   x509 accepts d iff k = 0
      reserved_in table n    the base name of n is one of the table's name patterns *)
-From WI Require Import Lib.Base Lib.Info Lib.Strings Model.Base64 Model.Dispatch Model.Render Model.Routes.
+From WI Require Import Lib.Base Lib.Info Lib.Strings Model.Base64 Model.Dispatch Model.Render Model.Pem Model.Routes.
 From WI Require Import Proofs.Routes.
+From WI Require Proofs.Pem.
 Open Scope N_scope.
 
 (* T1: what the routes need from the format table, re-proved on the table regenerated from the
@@ -50,14 +52,24 @@ Theorem C05_trial_order : forall L k d, (k <= 6)%nat ->
 Proof. exact trial_order_thm. Qed.
 Print Assumptions C05_trial_order.
 
-(* PEM = DER at the level of the parsers: a block whose label is the kind's label.
-   [pem_blocks] is the loop over encoding/pem.Decode (oracle); the hypothesis on it is what
-   pem.Decode does on a well-formed block between text that contains no other block. *)
-Theorem C05_pem_eq_der : forall L pem_blocks k d crlf pre post, (k <= 6)%nat ->
+(* PEM FRAMING (model of encoding/pem.Decode and of PEMFile's loop, Model/Pem.v): a file made of text
+   without a start marker, one block as OpenSSL/encoding/pem write it (label line, padded base64
+   wrapped at 64, END line; LF or CRLF), and text without a start marker yields exactly that block *)
+Theorem C05_pem_framing : forall label d crlf pre post,
+  ~ In 10 label -> bytes_ok d = true -> d <> [] ->
+  index_of pem_begin (pre ++ pem_begin) = Some (length pre) ->
+  index_of pem_begin post = None ->
+  pem_blocks_of (pem_text label d crlf pre post) = [(label, d)].
+Proof. exact Proofs.Pem.pem_blocks_of_pem_text. Qed.
+Print Assumptions C05_pem_framing.
+
+(* PEM = DER at the level of the parsers: a block whose label is the kind's label, between
+   surrounding text that contains no "-----BEGIN " *)
+Theorem C05_pem_eq_der : forall L k d crlf pre post, (k <= 6)%nat ->
   der_of_kind k d = true -> cert_oracle_ok L k d = true ->
-  pem_blocks (pem_text (label_of k) d crlf pre post) = [(label_of k, d)] ->
-  route_pem L pem_blocks (pem_text (label_of k) d crlf pre post) = route_der L d.
-Proof. exact pem_eq_der. Qed.
+  index_of pem_begin (pre ++ pem_begin) = Some (length pre) -> index_of pem_begin post = None ->
+  route_pem L pem_blocks_of (pem_text (label_of k) d crlf pre post) = route_der L d.
+Proof. exact pem_eq_der_model. Qed.
 Print Assumptions C05_pem_eq_der.
 
 (* ... for a label in any letter case (anything that strings.ToUpper maps to the kind's label) *)
@@ -68,28 +80,29 @@ Theorem C05_pem_label_case : forall L k typ d, (k <= 6)%nat ->
 Proof. exact pem_block_eq_der. Qed.
 Print Assumptions C05_pem_label_case.
 
-(* PEM = DER through the dispatcher, file starting with the block (LF or CRLF, any trailer), ANY file name *)
-Theorem C05_pem_eq_der_inspect : forall L pem_blocks sniff_other parse_other name k d crlf post, (k <= 6)%nat ->
+(* PEM = DER through the dispatcher, file starting with the block (LF or CRLF, any trailer without
+   a start marker), ANY file name *)
+Theorem C05_pem_eq_der_inspect : forall L sniff_other parse_other name k d crlf post, (k <= 6)%nat ->
   der_of_kind k d = true -> cert_oracle_ok L k d = true ->
-  pem_blocks (pem_text (label_of k) d crlf [] post) = [(label_of k, d)] ->
-  inspect_file L pem_blocks sniff_other parse_other name (pem_text (label_of k) d crlf [] post) = route_der L d.
-Proof. exact inspect_pem_eq_der. Qed.
+  index_of pem_begin post = None ->
+  inspect_file L pem_blocks_of sniff_other parse_other name (pem_text (label_of k) d crlf [] post) = route_der L d.
+Proof. exact inspect_pem_eq_der_model. Qed.
 Print Assumptions C05_pem_eq_der_inspect.
 
 (* PEM block after other text: the whole file must not be claimed by another format — no magic at
    its start, not a UUID, not a JWT, not itself one BER value ("Ar\n-----BEGIN ..." of the right length
    is one), not base64 — and "-----BEGIN" must occur before the first "-----END" *)
-Theorem C05_pem_surrounded : forall L pem_blocks sniff_other parse_other name k d crlf pre post i, (k <= 6)%nat ->
+Theorem C05_pem_surrounded : forall L sniff_other parse_other name k d crlf pre post i, (k <= 6)%nat ->
   der_of_kind k d = true -> cert_oracle_ok L k d = true ->
   let text := pem_text (label_of k) d crlf pre post in
-  pem_blocks text = [(label_of k, d)] ->
+  index_of pem_begin (pre ++ pem_begin) = Some (length pre) -> index_of pem_begin post = None ->
   reserved_in table name = false ->
   forallb (fun r => negb (matches_magic r text)) table = true ->
   sniff_other (bs "IsUUID") text = false -> sniff_other (bs "IsJWT") text = false ->
   is_asn1 text = false -> is_b64_asn1 text = false -> is_mixed_pem text = true ->
   route_der L d = Ok i ->
-  inspect_file L pem_blocks sniff_other parse_other name text = Ok i.
-Proof. exact pem_surrounded_now. Qed.
+  inspect_file L pem_blocks_of sniff_other parse_other name text = Ok i.
+Proof. exact pem_surrounded_model. Qed.
 Print Assumptions C05_pem_surrounded.
 
 (* BASE64 = DER at the level of the parsers: any of the four alphabets/paddings, any wrap width,
